@@ -10,6 +10,7 @@ package dtls
 
 import (
 	"bytes"
+	"context"
 	"fmt"
 	"net"
 	"os"
@@ -461,6 +462,13 @@ func vfC08ListenerFlood(res *vfResult, ver string) {
 // datagrams from its peer's address (anybody can send those). They cannot be parsed as DTLS records: they are dropped
 // and the connection keeps serving.
 func vfC08ListenerEmptyDatagram(res *vfResult, ver string) {
+	vfC08ListenerJunk(res, ver, "empty-datagram")
+}
+
+// vfC08ListenerJunk: kind "empty-datagram" = three zero-length datagrams; kind "flood" = 6 000 undecodable datagrams from
+// the peer's address while the application is not reading, more than the listener's buffer holds. Afterwards the
+// connection serves genuine traffic again.
+func vfC08ListenerJunk(res *vfResult, ver, kind string) {
 	res.Eval(1)
 	pki := vfGetPKI()
 	so := vfSO(append(vfVerOpts(ver), WithCertificates(pki.Leaf("ecdsa", "server")))...)
@@ -514,7 +522,7 @@ func vfC08ListenerEmptyDatagram(res *vfResult, ver string) {
 	}
 	srv, _ := a.c.(*Conn)
 	defer func() { _ = srv.Close() }()
-	id := "listener-empty-datagram/" + ver
+	id := "listener-" + kind + "/" + ver
 	res.NonTrivial(id)
 	read := func(want string) string {
 		buf := make([]byte, 256)
@@ -535,19 +543,137 @@ func vfC08ListenerEmptyDatagram(res *vfResult, ver string) {
 
 		return
 	}
-	for i := 0; i < 3; i++ {
-		_, _ = sock.WriteTo(nil, ln.Addr())
+	if kind == "flood" {
+		// three payloads the application does not read yet park the connection's read loop, so that what follows
+		// piles up in the listener's buffer
+		for k := 0; k < 3; k++ {
+			_, _ = cc.Write([]byte(fmt.Sprintf("parked-%d", k)))
+		}
+		time.Sleep(50 * time.Millisecond)
+		r := vfRand("C08/listener-junk/"+ver, 0)
+		for i := 0; i < 6000; i++ {
+			_, _ = sock.WriteTo(vfRandBytes(r, 200), ln.Addr())
+			if i%64 == 63 {
+				time.Sleep(time.Millisecond)
+			}
+		}
+		res.Count("injected/flood-at-listener-connection", 6000)
+	} else {
+		for i := 0; i < 3; i++ {
+			_, _ = sock.WriteTo(nil, ln.Addr())
+		}
+		res.Count("injected/empty-datagram-at-listener", 3)
 	}
 	time.Sleep(50 * time.Millisecond)
-	res.Count("injected/empty-datagram-at-listener", 3)
-	_, werr := cc.Write([]byte("after"))
-	if msg := read("after"); werr != nil || msg != "" {
-		res.Violate("C08:est-stops-serving-after-discardable-input:listener-empty-datagram",
-			fmt.Sprintf("%s: after three zero-length datagrams from its peer's address the connection accepted through the listener no longer delivers data: client Write err=%v, server Read: %s", id, werr, msg),
-			map[string]any{"listener_empty": ver})
+	// (the junk is read away first; what the full buffer dropped is lost like any datagram, so the payload is written
+	// again until it gets through)
+	var werr error
+	msg := "never written"
+	for try := 0; try < 4 && msg != ""; try++ {
+		_, werr = cc.Write([]byte("after"))
+		msg = read("after")
+	}
+	if werr != nil || msg != "" {
+		res.Violate("C08:est-stops-serving-after-discardable-input:listener-"+kind,
+			fmt.Sprintf("%s: after the undecodable datagrams from its peer's address the connection accepted through the listener no longer delivers data: client Write err=%v, server Read: %s", id, werr, msg),
+			map[string]any{"listener_junk": ver + "/" + kind})
 	} else {
 		res.Count("listener_empty_still_serving", 1)
 	}
+}
+
+// vfC08OddVersionHello: a well-formed ClientHello that offers no version the server supports (rewritten in transit from
+// a genuine client's hello: legacy_version DTLS 1.0 without supported_versions, or a supported_versions list of unknown
+// versions only) reaches servers of every version range. Unauthenticated input in the first handshake state: the server
+// refuses, it does not panic.
+func vfC08OddVersionHello(res *vfResult, sver, kind string) {
+	res.Eval(1)
+	cfg := vfBaseCfg(vfSuiteInfo{Name: "default", Auth: "ecdsa"}, "ecdsa")
+	cfg.CVer, cfg.SVer, cfg.HelloVerify = "12", sver, false
+	if kind == "unknown-supported-versions" {
+		cfg.CVer = "dual"
+	}
+	n := vfNewNet()
+	co, so := cfg.Options(nil, nil)
+	p, err := vfNewPair(n, co, so)
+	if err != nil {
+		res.Count("config_rejected", 1)
+
+		return
+	}
+	rewritten := 0
+	n.SetOnSend(func(n *vfNet, w *vfWire) {
+		if w.From != "c" {
+			n.Deliver(w.Dst, w.Data, vfAddrOf(w.From))
+
+			return
+		}
+		recs, ok := vfParseDatagram(w.Data, 0)
+		var dg []byte
+		for _, rc := range recs {
+			h, rest, okh := vfParseHS(rc.Body)
+			if !ok || rc.Unified || rc.Type != 22 || rc.Epoch != 0 || !okh || len(rest) != 0 || h.Type != 1 || h.FragOff != 0 || h.FragLen != h.Length {
+				dg = append(dg, rc.Raw...)
+
+				continue
+			}
+			hello, okp := vfParseHello(h.Body, true)
+			if !okp {
+				dg = append(dg, rc.Raw...)
+
+				continue
+			}
+			var exts []vfExt
+			for _, e := range hello.Exts {
+				if e.Type != 43 {
+					exts = append(exts, e)
+				}
+			}
+			if kind == "unknown-supported-versions" {
+				exts = append(exts, vfExt{Type: 43, Data: []byte{4, 0xfe, 0x00, 0x03, 0x04}})
+			} else {
+				hello.Version = []byte{0xfe, 0xff}
+			}
+			hello.Exts = exts
+			body := hello.Marshal()
+			dg = append(dg, vfLegacyRecord(22, rc.Version, 0, rc.Seq, nil, -1, vfHSFragment(1, uint32(len(body)), h.MsgSeq, 0, uint32(len(body)), body))...)
+			rewritten++
+		}
+		if !ok {
+			dg = w.Data
+		}
+		n.Deliver(w.Dst, dg, vfAddrOf(w.From))
+	})
+	id := fmt.Sprintf("odd-version-hello/server=%s/%s", sver, kind)
+	ctx, cancel := context.WithTimeout(context.Background(), 20*time.Second)
+	defer cancel()
+	var wg sync.WaitGroup
+	wg.Add(2)
+	var panicked any
+	go func() {
+		defer wg.Done()
+		defer func() {
+			if r := recover(); r != nil {
+				panicked = r
+			}
+		}()
+		p.S.Err = p.S.Conn.HandshakeContext(ctx)
+	}()
+	go func() { defer wg.Done(); p.C.Err = p.C.Conn.HandshakeContext(ctx) }()
+	wg.Wait()
+	res.NonTrivial(id)
+	res.Count("injected/clienthello-without-common-version", int64(rewritten))
+	if panicked != nil {
+		res.Violate("C08:panic:clienthello-without-common-version:server="+sver,
+			fmt.Sprintf("%s: the server's HandshakeContext panicked: %v", id, panicked), map[string]any{"odd_version": id})
+	} else if p.S.Err == nil && p.C.Err == nil && sver != "12" {
+		res.Count("odd_version_hello_completed", 1)
+	} else {
+		res.Count("odd_version_hello_refused", 1)
+	}
+	n.SetOnSend(nil)
+	p.Close()
+	synctest.Wait()
 }
 
 func vfVerClass(v vfVariant) string {
@@ -946,10 +1072,19 @@ func TestVF_C08(t *testing.T) {
 		vfBubbles(t, len(tv)*2, func(t *testing.T, i int) { vfC08Trickle(res, tv[i/2], []string{"c", "s"}[i%2]) })
 	}
 	if len(only) == 0 {
+		var ov [][2]string
+		for _, sv := range []string{"12", "13", "dual"} {
+			for _, k := range []string{"legacy-version-dtls10", "unknown-supported-versions"} {
+				ov = append(ov, [2]string{sv, k})
+			}
+		}
+		vfBubbles(t, len(ov), func(t *testing.T, i int) { vfC08OddVersionHello(res, ov[i][0], ov[i][1]) })
 		vfC08ListenerFlood(res, "12")
 		vfC08ListenerFlood(res, "13")
 		vfC08ListenerEmptyDatagram(res, "12")
 		vfC08ListenerEmptyDatagram(res, "13")
+		vfC08ListenerJunk(res, "12", "flood")
+		vfC08ListenerJunk(res, "13", "flood")
 	}
 	res.Count("heap_delta_kb", int64(vfHeap()-heap0)/1024)
 	if len(only) == 0 {
